@@ -154,6 +154,11 @@ def app(environ, start_response):
     if kind == "sleep":
         time.sleep(float(arg))
         return reply("pid=%d gen=%s slept=%s" % (pid, os.environ.get("GEN", "-"), arg))
+    if kind == "nap":
+        # /nap/<seconds>/<tag>: like /sleep, but the phase log proves that the application was entered for this very request
+        _phase("nap " + (parts[2] if len(parts) > 2 else ""))
+        time.sleep(float(arg))
+        return reply("pid=%d gen=%s nap=%s" % (pid, os.environ.get("GEN", "-"), arg))
     if kind == "gate":
         _phase("entered " + arg)
         d = _wait_release(arg, 60.0)
